@@ -332,7 +332,12 @@ func runC20(c *Ctx, idx int) {
 	if cs.Observer {
 		observer = rec
 	}
+	startBefore := snapGenome(start)
 	runErr := exp.Execute(neat.NewContext(ctx, o), start, rec, observer)
+	if d := diffGenomes(startBefore, snapGenome(start)); d != "" {
+		c.Violate("start-genome-modified", map[string]interface{}{"case": cs}, "Execute modified the start genome every trial is spawned from: %s", d)
+		return
+	}
 
 	detail := func() map[string]interface{} {
 		logStr := make([]string, len(rec.log))
